@@ -67,8 +67,9 @@ theorem respellStr_spec (o : FOpts) (hR : o.noEscape) (raw : Bytes) (hj : JStrin
 
 /-! ### with an escape option, PreserveRawStrings off: the re-quote branch of ReformatString -/
 
-/-- every option set except PreserveRawStrings together with an escape option (the escape loop over the raw literal) -/
-def FOpts.respellable (o : FOpts) : Prop := o.noEscape ∨ o.preserve = false
+/-- every option set except PreserveRawStrings together with an escape option AND AllowInvalidUTF8 (the escape loop
+over a raw literal that may contain ill-formed UTF-8) -/
+def FOpts.respellable (o : FOpts) : Prop := o.noEscape ∨ o.preserve = false ∨ o.allowInvalidUTF8 = false
 
 theorem respellStr_quote (o : FOpts) (hp : o.preserve = false) (he : (o.html || o.js) = true) (raw : Bytes)
     (hj : JString (!o.allowInvalidUTF8) raw) :
@@ -86,20 +87,59 @@ theorem quote_spec (f : QFlags) (v : Bool) (raw : Bytes) :
   rw [JsonV.Props.C11.unquote_quote_lossy]
   exact JsonV.Lemmas.QuoteSpec.lossy_of_wellFormed _ (JsonV.Lemmas.QuoteWf.appendUnquote_wellFormed raw)
 
+/-! ### PreserveRawStrings with an escape option, strict UTF-8: the escape loop (slice C11 `preserve_*`) -/
+
+theorem respellStr_preserve (o : FOpts) (hp : o.preserve = true) (he : (o.html || o.js) = true)
+    (hu : o.allowInvalidUTF8 = false) (raw : Bytes) (hj : JString true raw) :
+    respellStr o raw = preserveLoop o.html o.js raw.length raw := by
+  obtain ⟨nc, hc⟩ := (JsonV.Props.C11.string_iff_quote raw true raw.length).mpr ⟨Nat.le_refl _, by simpa using hj⟩
+  have hne : (o.preserve && !o.html && !o.js) = false := by
+    cases h1 : o.html <;> cases h2 : o.js <;> simp_all
+  unfold respellStr
+  rw [if_neg (by rw [hne]; simp)]
+  simp only [reformatString, hu, Bool.not_false, hc, ne_eq, not_true_eq_false, he, if_false,
+    Bool.not_true, Bool.false_and, Bool.false_eq_true, hp, if_true]
+
+theorem preserve_spec (o : FOpts) (hp : o.preserve = true) (he : (o.html || o.js) = true)
+    (hu : o.allowInvalidUTF8 = false) (raw : Bytes) (hj : JString true raw) :
+    (Tok.str (respellStr o raw)).valid = true ∧ JString true (respellStr o raw) ∧
+    unqS (respellStr o raw) = unqS raw ∧ respellStr o (respellStr o raw) = respellStr o raw := by
+  obtain ⟨nc, hc⟩ := (JsonV.Props.C11.string_iff_quote raw true raw.length).mpr ⟨Nat.le_refl _, by simpa using hj⟩
+  have e1 := respellStr_preserve o hp he hu raw hj
+  have hq : JString true (preserveLoop o.html o.js raw.length raw) := JsonV.Props.C11.preserve_is_jstring _ _ raw _ nc hc
+  rw [e1]
+  refine ⟨(str_valid_iff _).mpr (jstring_weaken hq), hq, ?_, ?_⟩
+  · unfold unqS
+    have := JsonV.Props.C11.preserve_unquote o.html o.js raw _ nc hc
+    rw [List.take_length] at this
+    rw [this]
+  · rw [respellStr_preserve o hp he hu _ hq]
+    have := JsonV.Props.C11.preserve_idem o.html o.js raw _ nc hc []
+    rwa [List.append_nil] at this
+
 /-- what respelling does to one literal of the selected mode, for every respellable option set -/
 theorem respellStr_spec' (o : FOpts) (hR : o.respellable) (raw : Bytes) (hj : JString (!o.allowInvalidUTF8) raw) :
     (Tok.str (respellStr o raw)).valid = true ∧ JString (!o.allowInvalidUTF8) (respellStr o raw) ∧
     unqS (respellStr o raw) = unqS raw ∧ respellStr o (respellStr o raw) = respellStr o raw := by
   by_cases hne : o.noEscape
   · exact respellStr_spec o hne raw hj
-  · have hp : o.preserve = false := by rcases hR with h | h; exact absurd h hne; exact h
-    have he : (o.html || o.js) = true := by
+  · have he : (o.html || o.js) = true := by
       cases h1 : o.html <;> cases h2 : o.js <;> simp_all [FOpts.noEscape]
-    have e1 := respellStr_quote o hp he raw hj
-    obtain ⟨q1, q2, q3⟩ := quote_spec ⟨o.html, o.js, o.allowInvalidUTF8, false⟩ (!o.allowInvalidUTF8) raw
-    rw [e1]
-    refine ⟨q1, q2, q3, ?_⟩
-    rw [respellStr_quote o hp he _ q2, q3]
+    cases hp : o.preserve with
+    | false =>
+      have e1 := respellStr_quote o hp he raw hj
+      obtain ⟨q1, q2, q3⟩ := quote_spec ⟨o.html, o.js, o.allowInvalidUTF8, false⟩ (!o.allowInvalidUTF8) raw
+      rw [e1]
+      refine ⟨q1, q2, q3, ?_⟩
+      rw [respellStr_quote o hp he _ q2, q3]
+    | true =>
+      have hu : o.allowInvalidUTF8 = false := by
+        rcases hR with h | h | h
+        · exact absurd h hne
+        · rw [hp] at h; cases h
+        · exact h
+      rw [hu] at hj ⊢
+      exact preserve_spec o hp he hu raw (by simpa using hj)
 
 /-! ### every option set, strict UTF-8: the text of each literal is preserved (slice C11 `reformat_meaning_strict`) -/
 
